@@ -140,10 +140,18 @@ def transmit(script, chan, start_frame, df):
     code_unit = bool(words) and is_code_word(words[-1]) and u[0] != "ext"
     # channel-2 burst only right before a channel-1 control code (the protocol resumes a channel with a code)
     if u[0] in ("ctl", "pac") and rng.random() < chan["ch2"]:
-      emit((0x1c, 0x20), 2, None)
-      if double:
+      if rng.random() < 0.7:
+        # channel 2: RCL, PAC, text
         emit((0x1c, 0x20), 2, None)
-      emit((0x1c, 0x70), 2, None)
+        if double:
+          emit((0x1c, 0x20), 2, None)
+        emit((0x1c, 0x70), 2, None)
+      else:
+        # a control code of the second field (CC3 / CC4) followed by that channel's text
+        fc = (rng.choice([0x15, 0x1d]), rng.choice([0x20, 0x25, 0x29, 0x2c, 0x2f]))
+        emit(fc, 2, None)
+        if double:
+          emit(fc, 2, None)
       for c2 in ("no", "pe"):
         emit((ord(c2[0]), ord(c2[1])), 2, None)
       last_logical = None
@@ -248,7 +256,7 @@ def gen_script(rng, knobs):
     if not first and rng.random() < knobs["switch"]:
       new_style = rng.choice(knobs["styles"])
       if new_style != style:
-        if rng.random() >= knobs.get("unclean", 0.0):
+        if "roll" in (style, new_style) or rng.random() >= knobs.get("unclean", 0.0):
           # clean switch: erase both memories, let the screen rest
           script += [["gap", rng.choice([20, 40])], ["ctl", "EDM"], ["ctl", "ENM"], ["gap", rng.choice([20, 60])]]
         else:
